@@ -19,6 +19,7 @@ from ..seams import FaultPlan, InjectedFault
 from ..session import SimEnv, SeededOutcomes, state_obs, obs_diff
 from ..spec import build_program
 from ..world import Violation
+from .. import refmodels as rm
 
 ID = "C08"
 LEVEL = "exploration"
@@ -89,10 +90,23 @@ def generate_ent(seed, tier, batch):
     n0 = r.randint(1, min(3, max_alive))
     alive, nxt = list(range(n0)), n0
     segs = []
+    MAX_EVER = 4 if backend == "fock" else globals()["MAX_EVER"]  # the twin without register operations holds every mode ever created
     for s_ in range(nseg):
         ops = []
         for _ in range(r.randint(2, 9)):
             x = r.random()
+            if x >= 0.26 and r.random() < 0.22:
+                # gates outside the common alphabet: non-Gaussian Fock primitives, and gates the compilers decompose
+                if backend == "fock" and r.random() < 0.6:
+                    g = r.choice(["Kgate", "CKgate", "CKgate", "Vgate"]) if len(alive) > 1 else r.choice(["Kgate", "Vgate"])
+                    pr = {"Kgate": [round(r.uniform(0.3, 2.5), 3)], "CKgate": [round(r.uniform(0.5, 3.0), 3)], "Vgate": [round(r.uniform(-0.3, 0.3), 3)]}[g]
+                else:
+                    g = r.choice(["CXgate", "CZgate", "MZgate", "Pgate", "Zgate", "Xgate", "Fourier"]) if len(alive) > 1 else r.choice(["Pgate", "Zgate", "Xgate", "Fourier"])
+                    pr = {"CXgate": [round(r.uniform(-0.6, 0.6) * sc, 3)], "CZgate": [round(r.uniform(-0.6, 0.6) * sc, 3)],
+                          "MZgate": [round(r.uniform(0.2, 2.8), 3), round(r.uniform(0.2, 2.8), 3)], "Pgate": [round(r.uniform(-0.5, 0.5) * sc, 3)],
+                          "Zgate": [round(r.uniform(-0.7, 0.7) * sc, 3)], "Xgate": [round(r.uniform(-0.7, 0.7) * sc, 3)], "Fourier": []}[g]
+                ops.append({"op": g, "p": pr, "m": r.sample(alive, 2 if g in ("CKgate", "CXgate", "CZgate", "MZgate") else 1)})
+                continue
             if x < 0.14 and nxt < MAX_EVER and len(alive) < max_alive:
                 k_new = min(r.choice([1, 1, 2]), MAX_EVER - nxt, max_alive - len(alive))
                 ops.append({"op": "New", "n": k_new, "m": list(range(nxt, nxt + k_new))})
@@ -202,6 +216,8 @@ def generate(seed, tier, batch):
         invalid.append({"kind": kind, "after_seg": r.randrange(nseg), "pick": r.random(), "op": r.choice(["Dgate", "Rgate", "BSgate", "MeasureX", "LossChannel"])})
     script = {"backend": backend, "opts": opts, "segs": segs, "call": r.choice(["list", "seq"]), "invalid": invalid,
               "reset_between": r.random() < 0.25, "subset_state": r.random() < 0.3, "tape": seed, "foreign_first": r.random() < 0.25}
+    if not crash and script["call"] == "seq" and nseg >= 2 and r.random() < 0.3:
+        script["stranger_at"] = r.randrange(nseg - 1)
     if crash:
         script["crash"] = {"kfrac": round(r.random(), 4), "when": r.choice(["before", "after"]),
                            "exc": r.choice(["InjectedFault", "KeyboardInterrupt", "MemoryError"])}
@@ -380,7 +396,37 @@ def execute_ent(script, w):
                         return
         except Violation:
             return
-        if any(o["op"] in ("New", "Del") for sg in segs for o in sg["ops"]):
+        has_regops = any(o["op"] in ("New", "Del") for sg in segs for o in sg["ops"])
+        if has_regops and script.get("twin", True):
+            # ---- each live mode carries its own data: the same history WITHOUT register operations - every mode that ever exists is there
+            # from the start (a created mode starts in vacuum and nothing touches it before its creation), deleted modes simply stay
+            # (nothing touches them after their deletion) - run as one program on a fresh engine with the same measurement outcomes.  In the
+            # twin the simulator's internal numbering and the user's indices coincide throughout, so the reduced state of the live modes
+            # of the twin is what the history must have produced, whatever renumbering went on inside the simulator.
+            n_total = segs[0]["n"] + sum(o["n"] for sg in segs for o in sg["ops"] if o["op"] == "New")
+            twin_spec = {"n": n_total, "ops": [o for sg in segs for o in sg["ops"] if o["op"] not in ("New", "Del")]}
+            final = alive_after[-1]
+            w.step("twin_without_register_ops", modes=n_total)
+            try:
+                st_h = eng.backend.state()
+                outcomes.rewind()
+                eng2 = simenv.engine(backend, script["opts"])
+                res2 = eng2.run(build_program(twin_spec, name="twin"))
+                st_t = res2.state
+            except Violation:
+                return
+            if backend == "fock":
+                a_ = np.asarray(st_h.reduced_dm(list(range(len(final))))) if final else np.array(1.0)
+                b_ = np.asarray(st_t.reduced_dm(final)) if final else np.array(1.0)
+                d_ = None if a_.shape == b_.shape and float(np.max(np.abs(a_ - b_))) <= 1e-6 else "reduced density matrices differ by %.3g" % (
+                    float(np.max(np.abs(a_ - b_))) if a_.shape == b_.shape else float("nan"))
+            else:
+                d_ = rm.mixtures_close(rm.snapshot(st_h, sf.hbar), rm.snapshot(st_t, sf.hbar).reduced(final), random.Random(script["tape"]), tol=1e-7)
+            if d_:
+                w.violation("own-data", "history-vs-twin-without-register-ops", {"diff": d_, "live_modes": final, "modes_ever": n_total}, feats)
+                return
+            w.probes["twin_without_register_ops_agrees"] += 1
+        if has_regops:
             w.nontrivial.add(hashlib.sha256(json.dumps([backend, script["opts"], segs, script["call"]], sort_keys=True).encode()).hexdigest()[:16])
 
 
@@ -565,14 +611,38 @@ def execute(script, w):
                 live["queue"] = snapshots()
                 for i, p in enumerate(progs):
                     w.step("run", prog=p.name)
+                    where = "after segment %d" % i
                     try:
-                        res = eng.run(p)
+                        if script.get("stranger_at") == i:
+                            # the valid segment and a program that is no successor of it in ONE call: the segment is executed, the stranger is
+                            # refused, and the session continues with the real successor (no reset) - engine and simulator must still agree
+                            stranger = sf.Program(len(p.reg_refs) + 1, name="stranger")
+                            with stranger.context as q_:
+                                sfops.Dgate(0.1) | q_[0]
+                            w.fault("invalid_op:list_with_stranger")
+                            try:
+                                eng.run([p, stranger])
+                            except (Violation, InjectedFault, KeyboardInterrupt, MemoryError):
+                                raise
+                            except Exception as ex:  # noqa
+                                w.log("rejected", what="list_with_stranger", exc=type(ex).__name__)
+                                rejected[0] += 1
+                            else:
+                                w.violation("invalid-rejected", "accepted", {"what": "run([segment, program with another register])"}, feats + ["kind=list_with_stranger"])
+                                return
+
+                            class _R:
+                                state = eng.backend.state()
+                            res = _R
+                            where = "after run([segment %d, stranger]) was refused at the stranger" % i
+                        else:
+                            res = eng.run(p)
                     except Violation:
                         return
                     except Exception as ex:  # noqa
                         w.violation("valid-history-accepted", "run", {"segment": i, "exc": type(ex).__name__, "msg": str(ex)[:300]}, feats)
                         return
-                    if not observe(eng, res, models[i], progs[: i + 1], "after segment %d" % i):
+                    if not observe(eng, res, models[i], progs[: i + 1], where):
                         return
                     if not invalid_ops(script, w, simenv, eng, progs[: i + 1], models[i], i, feats, rejected, observe, res):
                         return
@@ -929,6 +999,8 @@ def shrink(script):
     for key in ("reset_between", "subset_state"):
         if script.get(key):
             yield dict(script, **{key: False})
+    if "stranger_at" in script:
+        yield {k_: v_ for k_, v_ in script.items() if k_ != "stranger_at"}
     if script["call"] == "seq":
         yield dict(script, call="list")
     if script["backend"] == "fock" and not script["opts"].get("pure", True):
